@@ -108,9 +108,11 @@ PROPS.update({
     'C02': _ev(['codec', 'validate'], 'Unbounded proofs that encode_vli appends exactly the Variable Byte Integer of the value (spec function written from OASIS 1.5.5), that the size function equals its length, '
                'and that the PUBLISH / SUBSCRIBE remaining-length and property-length computations equal the wire layouts of the specification with no overflow or truncation. '
                'Byte-level output of the step encoder is a bounded Kani check only.', design_ref='DESIGN.md 3/C02',
+               technique='Verus function contracts on the extracted length / size / encode_vli functions against spec functions of the OASIS wire layouts + Kani harnesses of the step encoder (bounded stand-in for byte production)',
                level_note=TRUST_COMMON + ' String byte length is an uninterpreted function blen(); &str-length functions are assumed here and decided by E-K.'),
     'C16': _ev(['validate'], 'Unbounded proofs, in both directions (Ok <=> rules hold), for validate_user_properties, validate_publish_packet_outbound(_internal), '
                'validate_subscribe_packet_outbound(_internal), is_valid_topic_filter_internal, and the length helpers they use.', design_ref='DESIGN.md 3/C16',
+               technique='Verus function contracts in both directions (Ok <=> the rules hold) on the extracted outbound validation functions + Verus/Kani contracts on the negotiated-settings table',
                level_note=TRUST_COMMON + ' Topic / filter grammar functions (is_valid_topic, compute_topic_filter_properties) and validate_string_length are assumed contracts here, examined by E-K (bounded).'),
     'C13': _ev(['ws'], 'Mostly BOUNDED: the two drivers are async / threaded code that no contract within reach can express (task and thread interleavings, select!, channels); the property is '
                'decided by bounded executable checks of the REAL tokio and threaded clients over scripted transports (partial writes, Pending / WouldBlock patterns, resets, reconnect, operations '
@@ -121,6 +123,7 @@ PROPS.update({
     'C17': _ev(['alias', 'protocol'], 'Unbounded proofs for the inbound resolver (empty topic -> bound topic or error; 0 / out-of-range -> error; reset empties), the manual and null outbound resolvers '
                '(skip-topic only for an alias currently bound to exactly that topic; alias in 1..=max; table updated exactly when an alias is sent with its topic), and that the engine resets both at CONNACK. '
                'The LRU resolver is proved too (alias range, omission only for bound topics, table evolves as the server\'s) under assumed specifications of lru::LruCache; the engine-level coupling through the RefCell and the wire is bounded (E-B).', design_ref='DESIGN.md 3/C17',
+               technique='Verus function contracts + data-structure invariants (alias tables viewed as abstract alias->topic relations) on the extracted resolver functions and the engine reset at CONNACK',
                level_note=TRUST_COMMON + ' "Table stays in step with the wire" across last-chance validation failures is not decidable by a contract (RefCell behind &self).'),
 })
 
@@ -157,6 +160,7 @@ EB_AWS = {'name': 'aws', 'crate': 'gneiss-mqtt-aws', 'module_dir': 'gneiss_mqtt_
 PROPS['C20'] = _ev(['aws'], 'Unbounded proofs, on the real builder code of both crates, that apply_aws_defaults changes exactly the drain policy and retry limit and only for an MQTT 3.1.1 client whose user set neither, '
                    'and that build_final_connect_options keeps a user client id, otherwise installs a fresh 36-character one, replaces only username/password under custom auth and preserves every other connect option. '
                    'The custom-auth query string (format!/write!) is a bounded check against an RFC 3986 reference parser.', design_ref='DESIGN.md 3/C20',
+                   technique='Verus function contracts (postconditions from the property text, frame over every other connect/client option) on the extracted builder functions of both crates',
                    level_note=TRUST_COMMON + ' uuid::Uuid::to_string is assumed to be the 36-character form; derived Clone impls are assumed to copy.',
                    eb=[EB_AWS])
 
